@@ -108,7 +108,11 @@ def get_text_from(path, encoding=None) -> str:
                 if position is None:
                     raise
                 path.seek(position)  # Reset after the previous .read():
-                s = decode_by_char(path)
+                # A text stream decodes whole chunks of its underlying
+                # binary stream at a time, so reading it one character
+                # at a time fails just like .read() did as soon as a
+                # chunk has an undecodable byte in it.  Go one level down.
+                s = decode_by_char(getattr(path, "buffer", path))
 
         else:
             # Not a path, not an already-opened file.
